@@ -384,6 +384,7 @@ func (intp *Interpreter) objectString2(o Object, short bool) string {
 
 const (
 	maxArraySize         = 65536
+	maxBindDepth         = 100
 	maxDictSize          = 65536
 	maxDictStackDepth    = 20
 	maxOperandStackDepth = 500
